@@ -2,7 +2,8 @@ LEVEL = "proof"
 MANIFEST = {
     "engine": "symrun",
     "category": "proof",
-    "text": "Postconditions on the real array_* functions of transform/array.py for ALL field values, means, variances, bounds, values and thresholds (symbolic reals): each output equals the documented quantile map composed with the normal cdf Phi((x-mu)/sigma) = (1+erf((x-mu)/(sigma sqrt 2)))/2 -- uniform low+(high-low)Phi inside (low, high) and increasing; arcsine a+(b-a)sin^2(pi Phi/2) inside [a,b]; U-quadratic: (out-beta)^3 = 3 Phi/alpha-(beta-a)^3, i.e. F(out)=Phi for the U-quadratic cdf, on all three sign branches of the cube root, inside [a,b], increasing; the default bounds mu -+ sqrt(2 var) / mu -+ sqrt(5/3 var) give those laws mean mu and variance var; Zinn-Harvey mu -+ sigma Phi^-1(F_|Z|(|z|)), even and order reversing; log-normal exp; Box-Cox equals BoxCox(lmbda)._denormalize after the shift, is inverted by BoxCox._normalize, and is cut off to 0 below the range (lmbda > 0); force-moments gives exactly the requested sample mean and variance; discrete/binary outputs take only the given values with classes (-inf,t0], (t0,t1], ..., (t_last,inf) for explicit thresholds, midpoints of the sorted values (arithmetic) and the normal quantiles at k/n (equal); every transform.field wrapper / Field.transform passes mean = field mean (0 when process and not keep_mean) and var = model sill, wraps with _pre_process/_post_process, stores under the requested name and refuses non-normal fields unless process=True. Added after the seeding rounds: arcsine / U-quadratic with exactly one bound given; all four (process, keep_mean) combinations of the wrappers. Also: Field.transform('discrete') accepts thresholds as str, list, tuple and ndarray (F33 repaired).",
+    "text": "Postconditions on the real array_* functions of transform/array.py for ALL field values, means, variances, bounds, values and thresholds (symbolic reals): each output equals the documented quantile map composed with the normal cdf Phi((x-mu)/sigma) = (1+erf((x-mu)/(sigma sqrt 2)))/2 -- uniform low+(high-low)Phi inside (low, high) and increasing; arcsine a+(b-a)sin^2(pi Phi/2) inside [a,b]; U-quadratic: (out-beta)^3 = 3 Phi/alpha-(beta-a)^3, i.e. F(out)=Phi for the U-quadratic cdf, on all three sign branches of the cube root, inside [a,b], increasing; the default bounds mu -+ sqrt(2 var) / mu -+ sqrt(5/3 var) give those laws mean mu and variance var; Zinn-Harvey mu -+ sigma Phi^-1(F_|Z|(|z|)), even and order reversing; log-normal exp; Box-Cox equals BoxCox(lmbda)._denormalize after the shift, is inverted by BoxCox._normalize, and is cut off to 0 below the range (lmbda > 0); force-moments gives exactly the requested sample mean and variance; discrete/binary outputs take only the given values with classes (-inf,t0], (t0,t1], ..., (t_last,inf) for explicit thresholds, midpoints of the sorted values (arithmetic) and the normal quantiles at k/n (equal); every transform.field wrapper / Field.transform passes mean = field mean (0 when process and not keep_mean) and var = model sill, wraps with _pre_process/_post_process, stores under the requested name and refuses non-normal fields unless process=True. Added after the seeding rounds: arcsine / U-quadratic with exactly one bound given; all four (process, keep_mean) combinations of the wrappers. Also: Field.transform('discrete') accepts thresholds as str, list, tuple and ndarray (F33 repaired)."
+            " Round 7: each default of the binary transform is independent (custom values with default divide and vice versa); array_discrete returns the given values for every input dtype (F36 repaired).",
     "level_note": "values unbounded (symbolic); obligations whose code depends on the shape (force-moments with n<=3 values, sample-statistics defaults with 2 values are plain obligations on 2-element arrays, Field wrappers with 1-2 stored values) are reported BOUNDED where marked; pointwise obligations on 1-element arrays count as proved (numpy elementwise semantics, T2). ASSUMED (T8, not proved): the probability integral transform -- a quantile map composed with the normal cdf pushes N(mu, sigma^2) to the law with that quantile function; hence the obligations establish the documented MAPS, and the statement about the resulting marginal law follows only with this lemma. erf/erfinv are uninterpreted (range, oddness, monotonicity, inverse pair as ground facts): a wrong argument, factor or composition is detected, a wrong scipy value is not; the constants erfinv(2k/n-1) of the equal-probability thresholds are computed natively the way the code does and checked natively to satisfy Phi = k/n. sqrt(2 var) = sqrt(var) sqrt(2) and (y^(1/3))^3 = y are instantiated textbook facts (T4); the cube-root form of the U-quadratic ppf is stated through its cube (unique real root) symbolically and in the cbrt form natively. floats as reals (T1); np.isclose(lmbda, 0) in array_boxcox is modelled exactly. Box-Cox cut-off for lmbda < 0 (0^(1/lmbda) = inf) is not specified by the docstring and not claimed.",
     "technique": "contract-based deductive verification: symbolic execution of the real Python functions against sidecar postconditions from the docstrings, VCs discharged by z3/cvc5 with instantiated axiom hints",
 }
